@@ -23,7 +23,7 @@ def run(chk):
         "Decides variant -> algorithm NAME agreement, not the algorithms. With P-TRIE over sha2/sha3 (byte tries), hmac/crc/xxhash (str chains): R27a each "
         "accepted variant literal's leaf instantiates a hasher/constant whose name normalises to the literal ('SHA-512/224' -> Sha512_224, 'CRC_32_ISCSI' -> "
         "crc::CRC_32_ISCSI, 'XXH3-64' -> xxh3_64) and to no sibling literal's name; R27b the validator table (variants()/VALID_*) equals the dispatched "
-        "set, so the `unreachable!` fall-through of sha2/sha3 really is unreachable; R27c md5/sha1/seahash reach their own crate; R27d a digest (result of a hasher's checksum/finalize/hash/xxh* call) is never narrowed by an integer cast before it is rendered (a narrowing `as` keeps the low bits only: the wide CRCs / 128-bit hashes would no longer match). Undecided: the algorithms.")
+        "set, so the `unreachable!` fall-through of sha2/sha3 really is unreachable; R27c md5/sha1/seahash reach their own crate; R27d a digest (result of a hasher's checksum/finalize/hash/xxh* call) is never narrowed by an integer cast before it is rendered (a narrowing `as` keeps the low bits only: the wide CRCs / 128-bit hashes would no longer match). R27e the digest is never produced without looking at the algorithm/variant argument: in resolve every success definition of the return place is dominated by a read of that field. Undecided: the algorithms.")
     M = fmap.FMap(facts)
     for fn0, cfg in DISPATCHERS.items():
         # the dispatch normally lives in the helper named like the function; after a refactor it may live in another body of the same
@@ -115,6 +115,7 @@ def run(chk):
                           "`%s` does not (only) call its own digest crate: %s" % (ident, others[:2] or "no callee found"), detail=d)
 
     rule_r27d(chk, M)
+    rule_r27e(chk, M)
 
 
 HASH_OUT = re.compile(r"(^|[<:])crc::Crc<.*>::checksum$|::checksum$|xxhash_rust::\w+::xxh\w+$|seahash::\w*::?hash\w*$|seahash::hash$|::finalize$|::finalize_fixed$|::digest$|::into_bytes$")
@@ -160,3 +161,52 @@ def rule_r27d(chk, M):
             chk.violation(rid, b.file, n, "narrowing cast %s->%s of a digest #%d" % (rv.get("from"), rv.get("to"), k),
                           "`%s`: the result of %s is cast %s -> %s (%s): the upper bits of the digest are dropped, so variants wider than %s bits no longer "
                           "match the published algorithm" % (ident, cal, rv.get("from"), rv.get("to"), b.loc(st), WIDTH.get(rv.get("to"))), detail=d)
+
+
+def rule_r27e(chk, M):
+    from facts import op_place
+    facts = chk.facts
+    rid = "R27e"
+    chk.rule(rid, "resolve produces a digest only after reading the algorithm/variant field", floor=5)
+    for ident in ("sha2", "sha3", "hmac", "crc", "xxhash"):
+        f = M.by_ident.get(ident)
+        if f is None:
+            chk.fail_closed(rid, "digest function `%s` not found" % ident)
+            continue
+        for e in f["exprs"]:
+            adt = facts.adts.get(e)
+            rn = M.resolve_body(e)
+            if not adt or not rn:
+                continue
+            fld = [x for x in adt["variants"][0]["fields"] if x in ("algorithm", "variant")]
+            if not fld:
+                chk.fail_closed(rid, "%s has no algorithm/variant field" % e)
+                continue
+            b = facts.body(rn)
+            reads = set()
+            for bi, si, st in b.iter_stmts():
+                rv = st["rv"]
+                pl = rv.get("p") if rv["k"] in ("ref", "discr") else (op_place(rv["op"]) if rv["k"] in ("use", "cast") else None)
+                if pl and pl["l"] == 1 and fld[0] in [x.get("f") for x in pl.get("p", []) if isinstance(x, dict)] and not b.is_cleanup(bi):
+                    reads.add(bi)
+            succ_defs = []
+            for kind, bb, si, x in b.defs().get(0, []):
+                if b.is_cleanup(bb):
+                    continue
+                if kind == "call":
+                    if "from_residual" in b.callee(x):
+                        continue
+                    succ_defs.append((bb, x["ln"]))
+                elif x["rv"]["k"] == "agg" and x["rv"].get("variant") == "Ok":
+                    succ_defs.append((bb, x.get("ln")))
+                elif x["rv"]["k"] == "use":
+                    succ_defs.append((bb, x.get("ln")))
+            bad = [(bb, ln) for bb, ln in succ_defs if not any(b.dominates(r, bb) for r in reads)]
+            d = {"function": ident, "field": fld[0], "field_reads": len(reads), "success_returns": len(succ_defs), "without_reading_the_field": [ln for bb, ln in bad]}
+            chk.instance(rid, d, ok=bool(succ_defs) and not bad)
+            if not succ_defs:
+                chk.fail_closed(rid, "%s: no success definition of the return place found in resolve" % ident)
+            for bb, ln in bad:
+                chk.violation(rid, b.file, rn, "`%s` returns a digest without reading `%s`" % (ident, fld[0]),
+                              "`%s`: resolve can return a result (line %s) on a path that never looks at the `%s` argument, so the digest computed there cannot "
+                              "depend on the requested algorithm" % (ident, ln, fld[0]), detail=d, loc="%s:%s" % (b.file, ln))
